@@ -22,6 +22,7 @@ SPEC = dict(
              "countmin: weights are non-negative in the model (negative weights of signed counter types are outside it)"],
     assumptions=["countmin: num_hashes >= 1, num_buckets >= 3, num_hashes*num_buckets < 2^30; merge partners have the same configuration; "
                  "decay factor in (0,1]; the sum of all weights fed into a sketch (including merged partners, before any halving/decay) fits the "
-                 "counter type; the seed's 16-bit hash is not 0 (documented constructor panic; deserialize_with_seed with such a seed panics on its "
+                 "counter type (for the signed types this excludes a weight of T::MIN, whose absolute value does not fit: update_with_weight(x, T::MIN) "
+                 "overflows in abs(): debug panic, same precondition class); the seed's 16-bit hash is not 0 (documented constructor panic; deserialize_with_seed with such a seed panics on its "
                  "argument and is outside the model)"],
 )
